@@ -34,25 +34,32 @@ func refSegMatch(pat, name string) bool {
 }
 
 type refNode struct {
-	name  string
-	dir   bool
-	kids  []*refNode
+	name string
+	dir  bool
+	link bool // a symbolic link to a sibling (directory or regular file)
+	kids []*refNode
 }
 
 // refGlob walks the reference tree: all segments but the last select directories, the last selects regular files.
-func refGlob(root *refNode, segs []string, prefix string) []string {
+// A link to a directory that the LAST segment matches goes to opt: it is not judged (see Assumptions).
+func refGlob(root *refNode, segs []string, prefix string, opt map[string]bool) []string {
 	var out []string
 	if len(segs) == 1 {
 		for _, k := range root.kids {
-			if !k.dir && refSegMatch(segs[0], k.name) {
+			if !refSegMatch(segs[0], k.name) {
+				continue
+			}
+			if !k.dir {
 				out = append(out, prefix+"/"+k.name)
+			} else if k.link {
+				opt[filepath.Clean(prefix+"/"+k.name)] = true
 			}
 		}
 		return out
 	}
 	for _, k := range root.kids {
 		if k.dir && refSegMatch(segs[0], k.name) {
-			out = append(out, refGlob(k, segs[1:], prefix+"/"+k.name)...)
+			out = append(out, refGlob(k, segs[1:], prefix+"/"+k.name, opt)...)
 		}
 	}
 	return out
@@ -111,6 +118,23 @@ func buildTree(r *gen.Rng, base string, depth int, node *refNode) {
 			node.kids = append(node.kids, &refNode{name: nm})
 		}
 	}
+	// symbolic links to siblings: a linked directory is a directory to every segment but the last,
+	// a linked regular file is a regular file
+	linkNames := []string{"lnk", "ab.l", "a.txt.l", "bxb", "l b"}
+	for _, k := range append([]*refNode{}, node.kids...) {
+		if !r.Chance(1, 4) {
+			continue
+		}
+		ln := linkNames[r.Intn(len(linkNames))]
+		if used[ln] {
+			continue
+		}
+		used[ln] = true
+		if os.Symlink(k.name, filepath.Join(base, ln)) != nil {
+			continue
+		}
+		node.kids = append(node.kids, &refNode{name: ln, dir: k.dir, link: true, kids: k.kids})
+	}
 }
 
 func randSeg(r *gen.Rng) string {
@@ -131,10 +155,10 @@ func C20(r *drv.Run) {
 		ntrees, npat = 400, 150
 		plen = 5
 	}
-	r.Rule = fmt.Sprintf("exhaustive: every pattern of length <= %d over {a,b,.,*} with at most 3 stars x a directory holding every name of length <= 4 over {a,b,.} (118 files) and 3 sub-directories with matching names; generated trees of depth <= 3 (names such as a.txt.txt, abxb, .a, and names containing ? [ ] + { } blank backslash, which only '*' may treat specially) with relative and absolute multi-segment patterns. Oracle: reference glob (segment-wise, backtracking '*') over the harness's own record of the tree; result sets compared after filepath.Clean; duplicates and listed directories are violations. Non-trivial = pattern containing '*' that selects a non-empty proper subset; distinct by (tree, pattern).", plen)
+	r.Rule = fmt.Sprintf("exhaustive: every pattern of length <= %d over {a,b,.,*} with at most 3 stars x a directory holding every name of length <= 4 over {a,b,.} (118 files) and 3 sub-directories with matching names; generated trees of depth <= 3 (names such as a.txt.txt, abxb, .a, and names containing ? [ ] + { } blank backslash, which only '*' may treat specially) with relative and absolute multi-segment patterns, the trees also holding symbolic links to sibling directories and files. Oracle: reference glob (segment-wise, backtracking '*') over the harness's own record of the tree; result sets compared after filepath.Clean; duplicates and listed directories are violations. Non-trivial = pattern containing '*' that selects a non-empty proper subset; distinct by (tree, pattern).", plen)
 	r.Assumptions = []string{
 		"excluded as the property says: directory segments made only of stars, '.' and '..' segments, empty segments",
-		"no symbolic links or special files in the trees",
+		"symbolic links in the trees point to an existing sibling (directory or regular file): a linked directory counts as a directory for every segment but the last, a linked regular file as a regular file; a link to a directory that the LAST segment matches is not judged (the code lists it and RunFiles then expands it like a directory argument); no dangling links, no special files",
 	}
 	// flat exhaustive directory
 	flat := filepath.Join(r.WorkDir, "c20", "flat")
@@ -179,9 +203,19 @@ func C20(r *drv.Run) {
 			if strings.HasPrefix(pattern, "/") {
 				rel = strings.TrimPrefix(pattern, base+"/")
 			}
-			want := refGlob(tree, strings.Split(rel, "/"), base)
+			opt := map[string]bool{}
+			want := refGlob(tree, strings.Split(rel, "/"), base, opt)
 			wantC, _ := cleanSorted(want)
 			gotC, dup := cleanSorted(res.Files)
+			if len(opt) > 0 {
+				kept := gotC[:0]
+				for _, g := range gotC {
+					if !opt[g] {
+						kept = append(kept, g)
+					}
+				}
+				gotC = kept
+			}
 			if dup {
 				r.Violate(&drv.Violation{Sig: "duplicate-entries", Case: c, Detail: map[string]any{"pattern": pattern, "observed": fmt.Sprint(trimAll(gotC, base))}})
 				return
@@ -206,6 +240,9 @@ func C20(r *drv.Run) {
 			}
 			if strings.HasPrefix(pattern, "/") {
 				r.Count("absolute_patterns", 1)
+			}
+			if strings.Contains(pattern, "*") && throughLink(tree, strings.Split(rel, "/")) {
+				r.Count("wildcard_patterns_selecting_through_links", 1)
 			}
 			if sample {
 				r.Sample(map[string]any{"pattern": pattern, "selected": len(wantC), "first": trimAll(wantC, base)[:min(3, len(wantC))]})
@@ -270,12 +307,31 @@ func C20(r *drv.Run) {
 		return &drv.Item{Case: wire.Case{Op: "glob", Pattern: fp.pat, Dir: tc.base}, Check: check(tc.tree, tc.base, fp.pat, tc.base, i%499 == 0)}
 	})
 	if r.NViolations() == 0 {
-		for _, k := range []string{"wildcard_patterns_selecting_files", "multi_segment_patterns", "absolute_patterns"} {
+		for _, k := range []string{"wildcard_patterns_selecting_files", "multi_segment_patterns", "absolute_patterns", "wildcard_patterns_selecting_through_links"} {
 			if r.Counter(k) == 0 {
 				r.Inconclusive("coverage floor: " + k + " = 0")
 			}
 		}
 	}
+}
+
+// throughLink: some selected file is itself a link or lies below a linked directory.
+func throughLink(root *refNode, segs []string) bool {
+	for _, k := range root.kids {
+		if !refSegMatch(segs[0], k.name) {
+			continue
+		}
+		if len(segs) == 1 {
+			if !k.dir && k.link {
+				return true
+			}
+			continue
+		}
+		if k.dir && (k.link && len(refGlob(k, segs[1:], "", map[string]bool{})) > 0 || throughLink(k, segs[1:])) {
+			return true
+		}
+	}
+	return false
 }
 
 func trimAll(list []string, base string) []string {
